@@ -55,6 +55,14 @@ static uint64_t fnv(uint64_t h, const void *p, size_t n)
 }
 #define H0 1469598103934665603ULL
 
+/* same, for memory that the verification hook in meta_reader.c may have poisoned (the buffer tail behind data_used) */
+__attribute__((no_sanitize("address"))) static uint64_t fnv_raw(uint64_t h, const void *p, size_t n)
+{
+	const unsigned char *b = p;
+	for (size_t i = 0; i < n; ++i) { h ^= b[i]; h *= 1099511628211ULL; }
+	return h;
+}
+
 static int make_readers(readers_t *r)
 {
 	sqfs_compressor_config_t cfg;
@@ -191,7 +199,7 @@ static uint64_t mr_state(const sqfs_meta_reader_t *m)
 	h = fnv(h, &m->next_block, sizeof(m->next_block));
 	h = fnv(h, &m->data_used, sizeof(m->data_used));
 	h = fnv(h, &m->offset, sizeof(m->offset));
-	h = fnv(h, m->data, sizeof(m->data));       /* whole buffer: stale bytes beyond data_used are part of the private state */
+	h = fnv_raw(h, m->data, sizeof(m->data));   /* whole buffer: stale bytes beyond data_used are part of the private state */
 	return h;
 }
 
